@@ -1,6 +1,13 @@
 (* Model/Dispatch.v — mirrors tcpConn/wsConn.OnPacket (the dispatcher goroutine and its bounded
-   packetCh), addPacket (non-blocking send, drop + log when full or not yet created),
-   client.onPacket/handlePush/Subscribe (go/client/*.go).  Routing is Waiters.route_of. *)
+   packetCh), addPacket (non-blocking send, drop + log when full), Close (closeCh) and
+   client.onPacket/handlePush/Subscribe (go/client/*.go).  Routing is Waiters.route_of.
+
+   Lifecycle of the dispatcher (tcp_conn.go / ws_conn.go, OnPacket):
+     not registered  --OnPacket (once)-->  running  --sees closed(): drains len(packetCh) packets,
+                                                        reports (nil, errConnClosed)-->  exited
+   The queue exists from the constructor on (d_chan = true), so the reader can fill it before the client has
+   registered its callback (client.dial registers after the dialer has returned) and the connection can even be
+   closed by then. *)
 From Coq Require Import List NArith Bool.
 From OAP Require Import Base.Bytes Base.Res Gen.Consts Model.Metadata Model.Header Model.Waiters.
 Import ListNotations.
@@ -9,19 +16,25 @@ Local Open Scope N_scope.
 (* subscriptions: command -> handler ids in registration order (Subscribe appends) *)
 Definition subs := N -> list nat.
 
+Inductive dphase := DPUnreg | DPRunning | DPExited.
+
 Record dstate := mkD {
-  d_chan : bool;                       (* packetCh exists (OnPacket ran) *)
+  d_chan : bool;                       (* packetCh exists *)
   d_cap : nat;                         (* ReadQueueSize *)
   d_queue : list wpkt;
   d_received : list wpkt;              (* every frame the reader decoded, in order *)
   d_accepted : list wpkt;              (* those that entered the queue *)
   d_taken : list wpkt;                 (* those the dispatcher took, in order *)
   d_calls : list (nat * wpkt);         (* handler invocations, in order *)
-  d_drops : nat }.                     (* "drop packet for channel full" log lines *)
+  d_drops : nat;                       (* "drop packet for channel full" log lines *)
+  d_phase : dphase;                    (* dispatcher goroutine *)
+  d_closed : bool;                     (* closeCh closed *)
+  d_gone : nat }.                      (* (nil, errConnClosed) notifications to the client *)
 
-Definition d0 (cap : nat) : dstate := mkD true cap [] [] [] [] [] 0.
+Definition d0 (cap : nat) : dstate := mkD true cap [] [] [] [] [] 0 DPRunning false 0.   (* callback registered at once *)
+Definition d0u (cap : nat) : dstate := mkD true cap [] [] [] [] [] 0 DPUnreg false 0.    (* fresh from the dialer *)
 
-Inductive dact := DRecv (p : wpkt) | DTake.
+Inductive dact := DRecv (p : wpkt) | DTake | DStart | DClose.
 
 Definition deliver (sb : subs) (p : wpkt) : list (nat * wpkt) :=
   match route_of p with
@@ -29,17 +42,42 @@ Definition deliver (sb : subs) (p : wpkt) : list (nat * wpkt) :=
   | _ => []
   end.
 
+Definition dphase_eqb (a b : dphase) : bool :=
+  match a, b with DPUnreg, DPUnreg | DPRunning, DPRunning | DPExited, DPExited => true | _, _ => false end.
+
 Definition dstep (sb : subs) (s : dstate) (a : dact) : dstate :=
   match a with
   | DRecv p =>
       if d_chan s && Nat.ltb (length (d_queue s)) (d_cap s)
       then mkD (d_chan s) (d_cap s) (d_queue s ++ [p]) (d_received s ++ [p]) (d_accepted s ++ [p]) (d_taken s) (d_calls s) (d_drops s)
+               (d_phase s) (d_closed s) (d_gone s)
       else mkD (d_chan s) (d_cap s) (d_queue s) (d_received s ++ [p]) (d_accepted s) (d_taken s) (d_calls s) (S (d_drops s))
-  | DTake =>
-      match d_queue s with
-      | [] => s                                                  (* blocked on an empty queue *)
-      | p :: q => mkD (d_chan s) (d_cap s) q (d_received s) (d_accepted s) (d_taken s ++ [p]) (d_calls s ++ deliver sb p) (d_drops s)
+               (d_phase s) (d_closed s) (d_gone s)
+  | DTake =>                                                    (* one iteration of the dispatcher's loop *)
+      match d_phase s with
+      | DPRunning =>
+          if d_closed s
+          then mkD (d_chan s) (d_cap s) [] (d_received s) (d_accepted s) (d_taken s ++ d_queue s)
+                   (d_calls s ++ flat_map (deliver sb) (d_queue s)) (d_drops s) DPExited true (S (d_gone s))
+          else match d_queue s with
+               | [] => s                                        (* blocked on an empty queue *)
+               | p :: q => mkD (d_chan s) (d_cap s) q (d_received s) (d_accepted s) (d_taken s ++ [p]) (d_calls s ++ deliver sb p) (d_drops s)
+                               DPRunning (d_closed s) (d_gone s)
+               end
+      | _ => s                                                  (* no dispatcher (yet / any more) *)
       end
+  | DStart =>
+      match d_phase s with
+      | DPUnreg => mkD (d_chan s) (d_cap s) (d_queue s) (d_received s) (d_accepted s) (d_taken s) (d_calls s) (d_drops s)
+                       DPRunning (d_closed s) (d_gone s)
+      | _ => s                                                  (* onPacketOnce *)
+      end
+  | DClose => mkD (d_chan s) (d_cap s) (d_queue s) (d_received s) (d_accepted s) (d_taken s) (d_calls s) (d_drops s)
+                  (d_phase s) true (d_gone s)
   end.
 
 Definition drun (sb : subs) (cap : nat) (acts : list dact) : dstate := fold_left (dstep sb) acts (d0 cap).
+Definition drun_u (sb : subs) (cap : nat) (acts : list dact) : dstate := fold_left (dstep sb) acts (d0u cap).
+
+(* the reader's and the closer's actions (everything except the dispatcher's own steps) *)
+Definition reader_side (a : dact) : bool := match a with DRecv _ | DClose => true | _ => false end.
